@@ -24,7 +24,8 @@ const (
 	sBool skind = iota
 	sBV
 	sF64
-	sStr // element of the uninterpreted-ish sort of strings (encoded as Int)
+	sStr  // element of the uninterpreted-ish sort of strings (encoded as Int)
+	sReal // a float64 known to lie on an exact dyadic grid, encoded as an SMT Real (see realmode.go)
 )
 
 type sym struct {
@@ -47,6 +48,8 @@ func sortText(k skind, w int) string {
 		return "(_ FloatingPoint 11 53)"
 	case sStr:
 		return "Int"
+	case sReal:
+		return "Real"
 	}
 	panic("sortText")
 }
@@ -317,6 +320,9 @@ func symOr(a, b sym) sym {
 }
 
 func symIte(c, a, b sym) sym {
+	if a.k == sReal || b.k == sReal {
+		a, b = toReal(a), toReal(b)
+	}
 	if c.t == "true" {
 		return a
 	}
@@ -327,6 +333,9 @@ func symIte(c, a, b sym) sym {
 }
 
 func symEq(a, b sym) sym {
+	if a.k == sReal || b.k == sReal {
+		a, b = toReal(a), toReal(b)
+	}
 	if a.k != b.k || a.w != b.w {
 		panic(unsupported(fmt.Sprintf("symEq sorts %v/%d vs %v/%d", a.k, a.w, b.k, b.w)))
 	}
@@ -350,6 +359,9 @@ func symBinop(op token.Token, t types.Type, x, y value) value {
 		return strBinop(op, asTerm(x), sy)
 	}
 	a, b := asTerm(x), asTerm(y)
+	if a.k == sReal || b.k == sReal {
+		return realBinop(op, toReal(a), toReal(b))
+	}
 	_, _, signed, _ := symSortOf(t)
 	switch a.k {
 	case sBool:
@@ -475,6 +487,9 @@ func strBinop(op token.Token, a, b sym) value {
 }
 
 func symUnop(op token.Token, x sym) value {
+	if x.k == sReal && op == token.SUB {
+		return sym{sReal, 0, "(- " + x.t + ")"}
+	}
 	switch op {
 	case token.NOT:
 		return symNot(x)
@@ -528,6 +543,11 @@ func symConv(tDst, tSrc types.Type, x sym) value {
 			}
 			return sym{sF64, 0, "((_ to_fp_unsigned 11 53) RNE " + x.t + ")"}
 		}
+	case sReal:
+		if dk == sF64 {
+			return x
+		}
+		panic(unsupported("conversion of an exact-grid float to an integer type (use the FP mode)"))
 	case sF64:
 		switch dk {
 		case sF64:
